@@ -8,7 +8,7 @@ import os
 from .campaign import fork_call, execute_ops, source_hash
 
 ROOT = os.path.dirname(os.path.dirname(os.path.abspath(__file__)))
-REPLAYS = os.path.join(ROOT, "replays")
+REPLAYS = os.environ.get("VERIF_REPLAY_DIR") or os.path.join(ROOT, "replays")
 
 
 def sig_of(v):
